@@ -61,7 +61,7 @@ ASSUMPTIONS = [
 ]
 
 IMPORTS = ("From Coq Require Import NArith List.\n"
-           "From DvcData Require Import Base.MD5 Base.Json Model.Listing Model.HashSched Model.ListingHist.")
+           "From DvcData Require Import Base.MD5 Base.Json Model.Listing Model.HashSched Model.ListingHist Model.HashSchedPath.")
 
 PARTS = ["a", "b", "c", "d", "\u00e9", "a b", 'a"b', "a\\b", "\x01x", "\x7f", "\u65e5\u672c", "\U0001F600", "A",
          "a-b", "x.dir", "\u00fa", "\ud7ff", "\ue000", "\uffff", "\U00010000", "\U0010ffff", "\n", "\t", " ",
@@ -281,6 +281,17 @@ def tree_oracle(case):
     ta.digest()
     if ta.oid != oid0:
         problems.append(("C03:meta-dependent", f"changing every Meta changes the oid {oid0} -> {ta.oid}"))
+    # digest(with_meta=True) keeps the with-meta bytes as the object's content; the identifier is still
+    # that of the meta-free listing
+    for metas in (alt, [{"key": e["key"], "hash": e.get("hash"),
+                         "meta": {"size": 1 + i, "isexec": bool(i % 2), "version_id": "v%d" % i, "etag": "e"}}
+                        for i, e in enumerate(adds)]):
+        tw = _mk_tree(metas)
+        tw.digest(with_meta=True)
+        if tw.oid != oid0 or (distinct_rp and tw.oid != impl.md5hex(ref_listing(pairs)) + ".dir"):
+            problems.append(("C03:meta-dependent:digest-with-meta",
+                             f"digest(with_meta=True) gives {tw.oid}, digest() gives {oid0} for the same (path, digest) pairs"))
+            break
     # serialise / re-parse
     if wf and distinct_rp:
         t2 = Tree.from_list(json.loads(b0))
@@ -363,6 +374,12 @@ def tree_item(case):
             return vL([vN(0), vN(code)])
         return vL([vN(1), _py_tree_val(t2)])
 
+    # digest(with_meta=True): identifier and the content kept for the object
+    dwm = vL([])
+    if bm is not None:
+        tw = _mk_tree(adds)
+        tw.digest(with_meta=True)
+        dwm = vL([vL([vB(tw.oid), vB(tw.fs.cat_file(tw.path))])])
     hn = case.get("hash_name")
     # scope limit of Model/Listing.v (stated there): a record whose hash field holds a number or a
     # boolean is stored as such by Tree.from_list, while the model (hash values are text) answers
@@ -378,6 +395,7 @@ def tree_item(case):
         vL([vopt(o, vB) for o in got_objs]),
         fl(b0, None),
         vL([]) if skip_meta_reparse else fl(bm, hn),
+        dwm,
     ])
     inp = cpair(clist([_entry_term(e) for e in adds]),
                 cpair(clist([_key_term(p) for p in prefs]),
@@ -409,7 +427,8 @@ TREE_MODEL = (
     " enc_list (fun p => enc_option VB (get_obj t p)) (fst (snd i));"
     " enc_fl_res (from_bytes None b0);"
     " match bm, fst (snd (snd i)) with"
-    " | Some b, false => enc_fl_res (from_bytes (snd (snd (snd i))) b) | _, _ => VL [] end]"
+    " | Some b, false => enc_fl_res (from_bytes (snd (snd (snd i))) b) | _, _ => VL [] end;"
+    " enc_option (fun oc : list N * list N => VL [VB (fst oc); VB (snd oc)]) (digest_obj true t)]"
 )
 
 
@@ -818,6 +837,7 @@ def run_build(ctx, files, cfg, workdir, delays):
     from dvc_data.hashfile.state import State, StateNoop
 
     src = os.path.join(workdir, "src")
+    spelled = src + cfg.get("spell", "")  # the staged directory as the caller writes it: "<dir>", "<dir>/", "<dir>//"
     rec = _Rec()
     o_bf, o_gh, o_hf, o_hash = bmod._build_files, bmod._get_hashes, bmod._hash_files, bmod.hash_file
 
@@ -872,7 +892,7 @@ def run_build(ctx, files, cfg, workdir, delays):
         bmod._build_files, bmod._get_hashes, bmod._hash_files, bmod.hash_file = (
             p_build_files, p_get_hashes, p_hash_files, p_hash_file)
         try:
-            _, meta, obj = bmod.build(odb, src, localfs, "md5", checksum_jobs=cfg["jobs"])
+            _, meta, obj = bmod.build(odb, spelled, localfs, "md5", checksum_jobs=cfg["jobs"])
         finally:
             bmod._build_files, bmod._get_hashes, bmod._hash_files, bmod.hash_file = o_bf, o_gh, o_hf, o_hash
     finally:
@@ -882,9 +902,9 @@ def run_build(ctx, files, cfg, workdir, delays):
     for d in rec.dirs:
         rel = os.path.relpath(d["root"], src)
         relkey = [] if rel == "." else rel.split(os.sep)
-        walk.append({"rel": relkey, "fnames": d["fnames"], "sizes": d["sizes"], "state": d["state"],
+        walk.append({"rel": relkey, "root": d["root"], "fnames": d["fnames"], "sizes": d["sizes"], "state": d["state"],
                      "yield": d["yield"], "result": d["result"]})
-    return {"oid": obj.oid, "nfiles": meta.nfiles, "walk": walk, "listing": obj.as_bytes()}
+    return {"oid": obj.oid, "nfiles": meta.nfiles, "walk": walk, "listing": obj.as_bytes(), "spelled": spelled}
 
 
 def build_item(files, cfg, obs):
@@ -898,7 +918,8 @@ def build_item(files, cfg, obs):
             rel = "/".join(d["rel"] + [fn])
             fs_t.append("{| f_name := %s; f_size := %s; f_state := %s; f_true := %s |}" % (
                 cbytes(fn), cN(d["sizes"][fn]), _hash_term(d["state"].get(fn)), cbytes(truth[rel])))
-        walk_t.append(cpair(_key_term(d["rel"]), clist(fs_t)))
+        # the key of the walked directory is derived by the model from the raw strings the code saw
+        walk_t.append(cpair(f"(rel_key_of {cbytes(obs['spelled'])} {cbytes(d['root'])})", clist(fs_t)))
         dones_t.append(clist([cbytes(x) for x in d["yield"]]))
     conf = "{| c_name := %s; c_threshold := %s; c_jobs := %s |}" % (
         cbytes("md5"), cN(cfg["threshold"]), copt(cfg["jobs"], cN))
@@ -961,6 +982,11 @@ def run_build_stream(ctx, dirs, per_dir):
         # always one config that sends everything non-empty to the pool with several workers
         if not any(c["threshold"] == 0 and c["jobs"] in (2, 4) and c["state"] in ("none", "cold", "foreign") for c in chosen):
             chosen.append({"jobs": 4, "threshold": 0, "state": "cold"})
+        # the same directory spelled with trailing separators must get the same identifier
+        for spell in ("/", "//"):
+            base = dict(ctx.rng.choice(cfgs))
+            base["spell"] = spell
+            chosen.append(base)
         if files:
             poison = ctx.rng.sample(sorted(files), max(1, len(files) // 3))
             chosen.append({"jobs": ctx.rng.choice([None, 2]), "threshold": ctx.rng.choice([0, 10]),
@@ -980,6 +1006,9 @@ def run_build_stream(ctx, dirs, per_dir):
             out_of_order = any(_out_of_order(d, cfg) for d in obs["walk"])
             ctx.case(case, nontrivial=bool(files))
             ctx.count("build:state=" + cfg["state"])
+            ctx.count("build:path-spelling=<dir>" + cfg.get("spell", ""))
+            if cfg.get("spell") and any(d["rel"] for d in obs["walk"]):
+                ctx.count("build:trailing-separator-with-nested-directories")
             ctx.count(f"build:jobs={cfg['jobs']}")
             ctx.count(f"build:threshold={cfg['threshold']}")
             ctx.count("build:dirs-on-parallel-path=" + ("0" if n_par == 0 else "1" if n_par == 1 else "2+"))
